@@ -33,6 +33,22 @@ def make_pool(rng):
     pool = [(base, [])]
     other, _ = gen.gen_circuit(rng, **dict(o, like=g))
     pool.append((other, []))
+    if rng.random() < 0.6:
+        # diamonds: a derived circuit whose operands are (X, Y) with Y itself derived from X, X listed first
+        try:
+            a = pool[rng.randrange(2)]
+            ja = pool.index(a)
+            sq = SF.multiply(a[0], a[0])
+            pool.append((sq, [ja]))
+            js = len(pool) - 1
+            if rng.random() < 0.5:
+                pool.append((SF.multiply(a[0], sq), sorted({ja, js})))
+            else:
+                inner = SF.multiply(sq, a[0])
+                pool.append((inner, sorted({ja, js})))
+                pool.append((SF.multiply(sq, inner), sorted({js, len(pool) - 1})))
+        except Exception:
+            pass
     for _ in range(rng.randint(2, 5)):
         j = rng.randrange(len(pool))
         c = pool[j][0]
